@@ -22,6 +22,7 @@ TRIGGER_FEATURES: Dict[str, Dict[str, float]] = {
     "typenameAlias": {"typename_alias": 1.0, "typename": 0.5},
     "mixinAndUnpacked": {"mixin_and_unpacked": 1.0, "spread_same": 0.6},
     "condTypename": {"typename_cond": 1.0, "typename": 0.6},
+    "objectInAbstract": {"obj_in_abs_inline": 0.7},
 }
 
 
@@ -72,6 +73,81 @@ def draw_cases(ctx: Ctx, label: str, n: int, features: Optional[Dict[str, float]
         i += 1
         if c:
             out.append(c)
+    return out
+
+
+# --------------------------------------------------------------------------------------------
+# hand-written document SHAPES the grown documents never have: a fragment definition shared by several spreads
+# (every grown fragment is spread exactly once), diamonds, a fragment both unpacked and reached through a base-class
+# fragment, mixins combined with abstract positions (the region of C01_partial_mixabs).  All of them are valid, lie outside
+# every finding region and must pass on the unchanged tree.
+# --------------------------------------------------------------------------------------------
+
+SHAPE_SDL = ("type Query { me: User node: Node named: Named search: SearchResult nodes: [Node!]! post: Post }\n"
+             "interface Node { id: ID! }\ninterface Named { name: String }\n"
+             "type User implements Node & Named { id: ID! name: String friends: [User!]! bestFriend: User pet: Node "
+             "modelFields: String modelConfig: Int modelDump: String schemaJson: String parseObj: Boolean modelComputedFields: ID "
+             "copy: String json: String dict: Int construct: String }\n"
+             "type Post implements Node { id: ID! title: String! author: User! }\nunion SearchResult = User | Post\n"
+             "interface Entity implements Node { id: ID! createdAt: String }\n"
+             "type Org implements Entity & Node { id: ID! createdAt: String title: String }\n"
+             "extend type Query { entity: Entity org: Org }\n")
+
+SHAPES: Dict[str, str] = {
+    # U is unpacked at the object position `me` and reached again through the base-class fragment F (-> S must be sent)
+    "unpacked-and-through-mixin": ("query Q { me { ...U } other: me { ...F } }\n"
+                                   "fragment U on Node { id ... on Post { ...S } }\nfragment S on Post { title }\n"
+                                   "fragment F on User { name bestFriend { ...U } }"),
+    "mixin-shared-by-two-positions": ("query Q { me { ...UF } other: me { friends { ...UF } } }\n"
+                                      "query R { node { id ... on User { ...UF } } }\nfragment UF on User { id name }"),
+    "three-level-mixins-two-operations": ("query Q { me { ...A } }\nquery R { again: me { ...B } }\n"
+                                          "fragment A on User { ...B friends { ...C } }\nfragment B on User { ...C name }\n"
+                                          "fragment C on User { id }"),
+    "mixins-with-abstract-positions": ("query Q { node { id ... on User { ...UF } ... on Post { title author { ...UG } } } "
+                                       "me { ...UF pet { __typename id } } }\n"
+                                       "query R { again: node { ... on Post { author { ...UG pet { id } } } } }\n"
+                                       "fragment UF on User { name friends { ...UG } }\nfragment UG on User { id }"),
+    "interface-fragment-unpacked-at-object": ("query Q { me { ...NF name bestFriend { ...NF } } post { ...NF title } }\n"
+                                              "fragment NF on Node { id }"),
+    "diamond-of-unpacked-fragments": ("query Q { me { ...N1 ...N2 name } }\nfragment N1 on Node { ...N0 }\n"
+                                      "fragment N2 on Named { name }\nfragment N0 on Node { id }"),
+    # the same interface reached at several positions of ONE operation with different inline-fragment coverage: every position
+    # needs its own typename literals (a position without a fragment on User must still accept a User)
+    "same-interface-different-coverage": ("query Q { detailed: node { id ... on User { name } } plain: node { id } "
+                                          "posts: node { id ... on Post { title } } me { pet { id } bestFriend { pet { id ... on User { name } } } } "
+                                          "last: node { id } }"),
+    # camelCase GraphQL names whose snake_case form is an attribute of pydantic.BaseModel (and names that are one as written)
+    "names-reserved-after-snake-casing": ("query Q { me { modelFields modelConfig modelDump schemaJson parseObj modelComputedFields "
+                                          "copy json dict construct } }"),
+}
+SHAPES.update({
+    # an interface implementing an interface: a fragment on the PARENT interface spread inside a fragment on the CHILD interface
+    # (unpacked while the child fragment's class is generated: `is_sub_type(parent, child interface)`), and at an object position
+    "parent-interface-fragment-in-child-interface-fragment": (
+        "query Q { entity { ...EntityFields } org { ...NodeFields title } }\n"
+        "fragment EntityFields on Entity { ...NodeFields createdAt }\nfragment NodeFields on Node { id }"),
+    # a fragment without inline fragments of its own (a base class of `QMe`) spreading a fragment that has some (unpacked into it)
+    "mixin-spreading-a-fragment-with-inline-fragments": (
+        "query Q { me { ...UserCard } }\nfragment UserCard on User { ...NodeInfo name }\n"
+        "fragment NodeInfo on Node { id ... on User { friends { id } } ... on Post { title } }"),
+})
+# shapes that are run with BOTH settings of convert_to_snake_case in every run
+SHAPES_BOTH_NAMINGS = {"names-reserved-after-snake-casing"}
+SHAPE_CALLS = {"same-interface-different-coverage": 10}
+
+
+def shape_cases(ctx: Ctx) -> List[Dict[str, Any]]:
+    import re
+
+    out: List[Dict[str, Any]] = []
+    for i, (name, q) in enumerate(sorted(SHAPES.items())):
+        ops = re.findall(r"\b(?:query|mutation)\s+(\w+)", q)
+        first = (i + int(str(ctx.seed)[-1:] if str(ctx.seed)[-1:].isdigit() else 0)) % 2 == 0
+        for snake in ([True, False] if name in SHAPES_BOTH_NAMINGS else [first]):
+            out.append({"seed": f"shape:{name}:{snake}", "sdl": SHAPE_SDL, "queries": q + "\n", "config": {"convert_to_snake_case": snake},
+                        "calls": [{"op": o, "seed": f"{ctx.seed}:shape:{name}:{o}:{k}", "vars": {}}
+                                  for o in ops for k in range(SHAPE_CALLS.get(name, 4))],
+                        "snake": snake, "features": {}, "scalar_str": [], "scalars": [], "shape": name})
     return out
 
 
